@@ -71,6 +71,11 @@ CATALOGUE = {
     "seq-args-fourth-raw": (R, "        for i, item in enumerate(value):\n            with context.enter(route=i) as arg_context:\n                try:\n                    result.append(", "        for i, item in enumerate(value):\n            if i == 3:\n                result.append(item)\n                continue\n            with context.enter(route=i) as arg_context:\n                try:\n                    result.append(", ["C01"]),
     "map-none-values-raw": (R, "            if value_type:\n                with context.enter(route=key) as value_context:", "            if value_type and _val is not None:\n                with context.enter(route=key) as value_context:", ["C01"]),
     "tuple-last-position-raw": (R, "                try:\n                    result.append(\n                        arg_context.transformer.apply(value[i], arg, func=func)\n                    )", "                try:\n                    result.append(\n                        arg_context.transformer.apply(value[i], arg, func=func) if i < 2 else value[i]\n                    )", ["C01"]),
+    "decode-always-lenient": (T, "            return data.decode(errors=\"strict\" if self.no_data_loss else \"ignore\")", "            return data.decode(errors=\"ignore\")", ["C12"]),
+    "collapse-under-ndl": (T, "            if self.no_data_loss and len(value) > 1:", "            if self.no_data_loss and len(value) > 2:", ["C12"]),
+    "bool-ndl-accepts-any": (T, "        if self.no_data_loss:\n            # bool can convert all the types", "        if self.no_data_loss and not isinstance(data, str):\n            # bool can convert all the types", ["C12"]),
+    "bool-nec-accepts-words": (T, "        if self.no_explicit_cast:\n            raise TypeError\n        if isinstance(data, bytes):\n            data = data.decode()", "        if self.no_explicit_cast and not isinstance(data, str):\n            raise TypeError\n        if isinstance(data, bytes):\n            data = data.decode()", ["C12"]),
+    "date-from-datetime-ndl": (T, "            if self.no_data_loss:\n                raise ValueError(f\"Invalid date: {data}, must be date\")\n            return data.date()", "            return data.date()", ["C12"]),
     "datetime-offset-plus-only": (T, "        if '+' in str(data) or neg_offset:", "        if '+' in str(data):", ["C14"]),
 }
 
